@@ -6,9 +6,12 @@
 import Chrono.Proofs.TzEncL
 import Chrono.Proofs.TzSamples
 import Chrono.Proofs.TzValidL
+import Chrono.Proofs.TzLookupPL
+import Chrono.Proofs.TzLayoutL
 
 namespace Chrono.Props.C16
-open Chrono Chrono.M.Tz Chrono.Spec.Tz Chrono.Proofs.Tz Chrono.Proofs.TzValid Chrono.Extracted.TzP
+open Chrono Chrono.M.Tz Chrono.Spec.Tz Chrono.Spec.Tz.Gr Chrono.Proofs.Tz Chrono.Proofs.TzValid
+  Chrono.Extracted.TzP
 
 /-- the extracted header constants are the RFC 8536 ones the writer specification uses, and the
 extracted field bounds are the ones the well-formedness predicates are stated with -/
@@ -33,6 +36,15 @@ theorem parse_total (bytes : List Nat) : parse bytes ≠ .panic := post_np (post
 /-- every `Vec::with_capacity` request `parse` makes is bounded by the input length -/
 theorem parse_allocs_bounded (bytes : List Nat) : ∀ c ∈ capacities bytes, c ≤ bytes.length :=
   capacities_le bytes
+
+/-- the same requests in BYTES: with 16-byte elements (`Transition`, `LocalTimeType`, `LeapSecond` on
+a 64-bit target) the three vectors together ask for less than 3.2 times the input length
+(`5 · Σ ≤ 16 · len`; a transition costs 5 or 9 input bytes, a type record 6, a leap record 8 or 12).
+In the byte reading "not beyond the input size" holds up to this constant; in the element reading
+(`parse_allocs_bounded`) it holds exactly. -/
+theorem parse_allocs_bounded_bytes (bytes : List Nat) :
+    5 * (capacityBytes bytes).sum ≤ 16 * bytes.length :=
+  capacityBytes_le bytes
 
 /-- every text is either read as a rule or refused, with and without the RFC 8536 extensions -/
 theorem rule_total (text : List Nat) (ext : Bool) : from_tz_string text ext ≠ .panic :=
@@ -110,6 +122,67 @@ theorem tz_roundtrip (r : Rule) (ext : Bool) (h : RuleOk ext r) :
     from_tz_string (renderTz r) ext = .ok r :=
   tz_roundtrip' r ext h
 
+/-! #### the POSIX TZ grammar: accepted = denoted
+
+`Spec.Tz.Denotes ext s r` (Spec/TzGrammar.lean) is an inductive, reader-independent definition of
+"the byte string `s` is a POSIX TZ string (RFC 8536 extensions iff `ext`) standing for rule `r`":
+`std offset` or `std offset dst [offset],start[/time],end[/time]`; designations of 3–7 letters, or
+3–7 characters of `[0-9A-Za-z+-]` in `<…>`; offsets `[+|-]hh[:mm[:ss]]` up to 24:59:59 with any zero
+padding; omitted DST offset = one hour ahead of standard; `Jn` / `n` / `Mm.w.d`; omitted `/time` =
+02:00:00; times `0…24:59:59`, or signed up to ±167:59:59 with the extensions. -/
+
+/-- ACCEPTS ALL: every string of the grammar — every optional part present or absent, every
+spelling of every field — is read as exactly the rule it denotes -/
+theorem tz_accepts_all (ext : Bool) (s : List Nat) (r : Rule) (h : Denotes ext s r) :
+    from_tz_string s ext = .ok r :=
+  tz_accepts_all' ext s r h
+
+/-- ACCEPTS ONLY: whatever the reader accepts is a string of the grammar, and the rule returned is
+the one it denotes.  With `rule_total`: every text outside the grammar is rejected with `Err`. -/
+theorem tz_accepts_only (ext : Bool) (s : List Nat) (r : Rule) (h : from_tz_string s ext = .ok r) :
+    Denotes ext s r :=
+  tz_accepts_only' ext s r h
+
+/-- the reader decides the grammar: `Ok r` exactly on the strings denoting `r`, `Err` on all others -/
+theorem tz_reader_is_grammar (ext : Bool) (s : List Nat) :
+    (∀ r, from_tz_string s ext = .ok r ↔ Denotes ext s r)
+      ∧ ((¬ ∃ r, Denotes ext s r) → from_tz_string s ext = .err) := by
+  refine ⟨fun r => ⟨tz_accepts_only ext s r, tz_accepts_all ext s r⟩, fun h => ?_⟩
+  cases e : from_tz_string s ext with
+  | ok r => exact absurd ⟨r, tz_accepts_only ext s r e⟩ h
+  | err => rfl
+  | panic => exact absurd e (rule_total s ext)
+
+/-- a TZ string denotes at most one rule (the grammar is unambiguous) -/
+theorem denotes_functional (ext : Bool) (s : List Nat) (r r' : Rule) (h : Denotes ext s r)
+    (h' : Denotes ext s r') : r = r' := by
+  have := (tz_accepts_all ext s r h).symm.trans (tz_accepts_all ext s r' h')
+  cases this; rfl
+
+/-- the canonical text of a well-formed rule is one of the strings denoting it, so `tz_roundtrip` is
+the special case `s = renderTz r` of `tz_accepts_all` -/
+theorem canonical_denotes (r : Rule) (ext : Bool) (h : RuleOk ext r) : Denotes ext (renderTz r) r :=
+  tz_accepts_only ext _ r (tz_roundtrip r ext h)
+
+/-- non-vacuity, by hand from the constructors (no reader involved): `EST5EDT,M3.2.0,M11.1.0` — DST
+offset and both times omitted — denotes New York's rule with DST at −4 h and both changes at 02:00 -/
+example : Denotes false (asc "EST5EDT,M3.2.0,M11.1.0") sampleRule2 :=
+  Denotes.alt (s1 := asc "EST") (s2 := [53]) (s3 := asc "EDT") (s4 := []) (s5 := asc "M3.2.0")
+    (s6 := asc "M11.1.0")
+    (Name.bare (by decide) (by decide) (by decide))
+    (Offset.mk Sign.none (Hms.h (Num.one 5 (by decide))) (by decide) (by decide) (by decide))
+    (Name.bare (by decide) (by decide) (by decide))
+    DstOffset.default
+    (DayTime.default (Day.mwd (Num.one 3 (by decide)) (Num.one 2 (by decide)) (Num.one 0 (by decide))
+      (by decide) (by decide) (by decide) (by decide) (by decide)))
+    (DayTime.default (Day.mwd (Num.snoc 1 (by decide) (Num.one 1 (by decide))) (Num.one 1 (by decide))
+      (Num.one 0 (by decide)) (by decide) (by decide) (by decide) (by decide) (by decide)))
+
+/-- non-vacuity: twelve non-canonical spellings (omitted DST offset / times, `+` signs, padded fields,
+quoted letter names, extension times at ±167:59:59) are in the grammar with the rule stated -/
+example : ∀ p ∈ sampleSpellings, Denotes p.1 p.2.1 p.2.2 :=
+  fun p hp => tz_accepts_only _ _ _ (tz_spellings_samples p hp)
+
 /-! #### what `TimeZone::validate` checks, characterised
 
 `validate` (timezone.rs) is the reader's last step.  Its model calls a three-valued, overflow-checked
@@ -174,7 +247,9 @@ theorem tzif_roundtrip_v1 (f : TzFile) (hver : f.version = .V1) (hs : BlockShape
     exact hs.ty0 this) h1 h2 h3 (Or.inl rfl))
 
 /-- versions 2 and 3, FULL STRENGTH: whatever the 32-bit block holds, the file is read back as exactly
-the 64-bit block and the footer's rule (`none` for an empty footer; the extensions only in version 3),
+the 64-bit block and the rule the footer DENOTES (`FooterOk`: the footer is empty and there is no
+rule, or it is ANY string of the TZ grammar — `Denotes (version = 3) footer r`, so footers that omit
+the DST offset or the `/time` parts, as every zoneinfo file does, are covered — and the rule is `r`),
 provided the written zone is consistent: transitions strictly increasing, type indices in range, the
 leap-second table constraints, and the footer rule agreeing with the last transition (`RuleAgrees`,
 which `rule_agrees_spec` restates through C05's rule specification).  No hypothesis mentions the
@@ -187,6 +262,62 @@ theorem tzif_roundtrip_v2 (f : TzFile) (hver : f.version ≠ .V1) (hs1 : BlockSh
     (h3 : checkLeaps (absBlock f.v2 rule).leaps = true) (h4 : RuleAgrees (absBlock f.v2 rule)) :
     parse (encodeTzif f) = .ok (absBlock f.v2 rule) :=
   tzif_roundtrip_v2_full' f hver hs1 hs2 hv rule hfoot h1 h2 h3 h4
+
+/-- the leap-second loop of `validate` — saturating subtraction, saturating absolute value — accepts
+exactly the tables meeting the RFC 8536 constraints in plain integer arithmetic (`LeapsOk`,
+Spec/TzValidSpec.lean: first record at a non-negative time with correction ±1; consecutive records at
+least 28 days − 1 s apart with corrections differing by exactly 1), for `i32` corrections and ANY times -/
+theorem checkLeaps_iff (ls : List LeapSecond) (hr : ∀ l ∈ ls, I32r l.corr) :
+    checkLeaps ls = true ↔ LeapsOk ls :=
+  checkLeaps_iff' ls hr
+
+/-- versions 2 and 3 with SPECIFICATION-LEVEL consistency hypotheses only: `LeapsOk` instead of the
+reader's `checkLeaps`, and `RuleAgreesSpec` — C05's specification `Spec.Zone.ruleOff` of what a rule
+prescribes at an instant — instead of `RuleAgrees` (which runs the model of the rule lookup).  The
+price is C05's scope: the rule's yearly transitions more than a day inside the calendar year
+(`TzL.RuleOk`) and the last transition within ±2^55 s. -/
+theorem tzif_roundtrip_v2_spec (f : TzFile) (hver : f.version ≠ .V1) (hs1 : BlockShape f.v1)
+    (hs2 : BlockShape f.v2) (hv : BlockVals f.version 8 f.v2) (rule : Option Rule)
+    (hfoot : FooterOk f.version f.footer rule)
+    (h1 : SortedStrict (absBlock f.v2 rule).transitions)
+    (h2 : ∀ t ∈ (absBlock f.v2 rule).transitions, t.idx < (absBlock f.v2 rule).types.length)
+    (h3 : LeapsOk (absBlock f.v2 rule).leaps)
+    (hr : Proofs.TzL.RuleOk rule)
+    (hb : ∀ last ut, (absBlock f.v2 rule).transitions.getLast? = some last →
+      leapToUnix (absBlock f.v2 rule).leaps last.time = some ut →
+      -36028797018963968 ≤ ut ∧ ut ≤ 36028797018963968)
+    (h4 : RuleAgreesSpec (absBlock f.v2 rule)) :
+    parse (encodeTzif f) = .ok (absBlock f.v2 rule) :=
+  tzif_roundtrip_v2 f hver hs1 hs2 hv rule hfoot h1 h2
+    ((checkLeaps_iff _ (abs_leaps_i32 _ _ _ rule hv.leaps)).mpr h3)
+    ((rule_agrees_spec (absBlock f.v2 rule) hr hb).mpr h4)
+
+/-- version 1 with `LeapsOk` instead of the reader's `checkLeaps` -/
+theorem tzif_roundtrip_v1_spec (f : TzFile) (hver : f.version = .V1) (hs : BlockShape f.v1)
+    (hv : BlockVals .V1 4 f.v1)
+    (h1 : SortedStrict (absBlock f.v1 none).transitions)
+    (h2 : ∀ t ∈ (absBlock f.v1 none).transitions, t.idx < (absBlock f.v1 none).types.length)
+    (h3 : LeapsOk (absBlock f.v1 none).leaps) :
+    parse (encodeTzif f) = .ok (absBlock f.v1 none) :=
+  tzif_roundtrip_v1 f hver hs hv h1 h2 ((checkLeaps_iff _ (abs_leaps_i32 _ _ _ none hv.leaps)).mpr h3)
+
+/-- non-vacuity: `sampleV1` (one leap second at 1972-07-01, correction +1) meets the hypotheses of
+`tzif_roundtrip_v1_spec`; a table whose second record comes 27 days after the first does not satisfy
+`LeapsOk` and `checkLeaps` refuses it -/
+example :
+    parse (encodeTzif sampleV1) = .ok (absBlock sampleV1.v1 none)
+      ∧ ¬ LeapsOk [⟨78796800, 1⟩, ⟨78796800 + 27 * 86400, 2⟩]
+      ∧ checkLeaps [⟨78796800, 1⟩, ⟨78796800 + 27 * 86400, 2⟩] = false := by
+  refine ⟨?_, ?_, by decide⟩
+  · exact tzif_roundtrip_v1_spec sampleV1 rfl
+      ⟨by decide, by decide, by decide, by decide, by decide, by decide, by decide, by decide⟩
+      ⟨by decide +kernel, by decide +kernel, by decide +kernel, by decide +kernel⟩
+      (show (-1000000000 : Int) < 1000000000 ∧ True from ⟨by decide, trivial⟩) (by decide)
+      ⟨⟨by decide, by decide⟩, trivial⟩
+  · intro h
+    have := h.2.1
+    revert this
+    decide
 
 /-- the earlier forms, with the reader's own `validate` as the consistency hypothesis (equivalent by
 `validate_iff`; kept because they are what the harness oracle evaluates) -/
@@ -232,6 +363,81 @@ theorem parsed_zone_join (bytes : List Nat) (z : Zone) (h : parse bytes = .ok z)
     Spec.Zone.ruleOff rule last.time = M.TzL.typeAt z last.idx :=
   parsed_zone_join' bytes z h hl rule last hrule hlast hr hb
 
+/-! ### an accepted zone answers every offset query
+
+`Zone.find_local_time_type_P` / `Zone.find_local_time_type_from_local_P` (Model/TzLookupP.lean) are
+three-valued models of `TimeZoneRef::find_local_time_type` / `find_local_time_type_from_local` and
+everything below them: every slice index can `panic`, every unchecked `i64` step is overflow-checked,
+`checked_add` gives `Err`, and the two `transition time + offset` sums saturate (the code after the
+repair of finding #10).  The wall-clock query is a `NaiveDateTime`: `year` is its calendar year (an
+`i32`; the theorems allow ANY `i32`), `ℓ` its timestamp. -/
+
+/-- lookup by instant: never a panic, for every zone `parse` accepts and EVERY instant (all of
+`i64`, and beyond) -/
+theorem lookup_instant_total (bytes : List Nat) (z : Zone) (h : parse bytes = .ok z) (t : Int) :
+    z.find_local_time_type_P t ≠ .panic := by
+  rw [find_P_val z (parsed_lookupSafe bytes z h) t]
+  cases z.find_local_time_type t <;> simp [toP]
+
+/-- lookup by wall clock: never a panic — in fact always `Ok` — for every zone `parse` accepts,
+every `i32` year and EVERY timestamp -/
+theorem lookup_local_total (bytes : List Nat) (z : Zone) (h : parse bytes = .ok z) (year : Int)
+    (hy : I32r year) (ℓ : Int) :
+    z.find_local_time_type_from_local_P year ℓ ≠ .panic
+      ∧ ∃ m, z.find_local_time_type_from_local_P year ℓ = .ok m := by
+  rw [find_local_P_val z (parsed_lookupSafe bytes z h) year hy ℓ]
+  exact ⟨by simp, _, rfl⟩
+
+/-- the three-valued lookup by instant IS property C05's model of the same function (`Option`-valued;
+proved there against the specification of a zone): same value, `Err` for `Err` -/
+theorem lookup_instant_is_c05 (bytes : List Nat) (z : Zone) (h : parse bytes = .ok z) (t : Int) :
+    z.find_local_time_type_P t = toP (z.find_local_time_type t) :=
+  find_P_val z (parsed_lookupSafe bytes z h) t
+
+/-- the three-valued lookup by wall clock IS property C05's model of the same function, the year
+being that of the wall-clock value (`naiveYear`, an `i32` for every `ℓ`) -/
+theorem lookup_local_is_c05 (bytes : List Nat) (z : Zone) (h : parse bytes = .ok z) (ℓ : Int) :
+    z.find_local_time_type_from_local_P (M.TzL.naiveYear ℓ) ℓ = .ok (z.find_local_time_type_from_local ℓ) := by
+  rw [find_local_P_val z (parsed_lookupSafe bytes z h) _ (naiveYear_i32 ℓ) ℓ, fromLocalWithYear_naive]
+
+/-- the same for a zone built from a `TZ` value that is a rule text (`TimeZone::from_posix_tz`: no
+transitions, the rule's own types): both lookups never panic -/
+theorem lookup_tz_string_total (text : List Nat) (ext : Bool) (r : Rule) (h : from_tz_string text ext = .ok r)
+    (t : Int) (year : Int) (hy : I32r year) (ℓ : Int) :
+    (zoneOfRule r).find_local_time_type_P t ≠ .panic
+      ∧ (zoneOfRule r).find_local_time_type_from_local_P year ℓ ≠ .panic := by
+  have hs := zoneOfRule_lookupSafe r (rule_accepted_is_valid text ext r h)
+  rw [find_P_val _ hs t, find_local_P_val _ hs year hy ℓ]
+  refine ⟨?_, by simp⟩
+  cases (zoneOfRule r).find_local_time_type t <;> simp [toP]
+
+/-- non-vacuity, on the file of finding #10 (transitions at `0` and `i64::MAX − 5`, the latter
+switching to UTC+2): it is accepted; `transition time + offset` does not fit `i64`, so the two sums
+of the wall-clock loop saturate; both lookups answer at the extremes of `i64` -/
+example :
+    parse (encodeTzif sampleF10) = .ok (absBlock sampleF10.v2 none)
+      ∧ ¬ I64r (9223372036854775802 + 7200)
+      ∧ (absBlock sampleF10.v2 none).find_local_time_type_from_local_P 2020 1577836800
+          = .ok (.single ⟨0, false, some (asc "UTC")⟩)
+      ∧ (absBlock sampleF10.v2 none).find_local_time_type_from_local_P 262142 9223372036854775807
+          = .ok (.single ⟨7200, true, some (asc "XDT")⟩)
+      ∧ (absBlock sampleF10.v2 none).find_local_time_type_P 9223372036854775807
+          = .ok ⟨7200, true, some (asc "XDT")⟩
+      ∧ (absBlock sampleF10.v2 none).find_local_time_type_P (-9223372036854775808)
+          = .ok ⟨0, false, some (asc "UTC")⟩ := by
+  refine ⟨by decide +kernel, by decide, by decide +kernel, by decide +kernel, by decide +kernel,
+    by decide +kernel⟩
+
+/-- non-vacuity: on `sampleV2` (New York's rule after the last transition) the instant lookup errs
+exactly where the rule's year arithmetic leaves `i32`, and answers elsewhere -/
+example :
+    (absBlock sampleV2.v2 (some sampleRule2)).find_local_time_type_P 9223372036854775807 = .err
+      ∧ (absBlock sampleV2.v2 (some sampleRule2)).find_local_time_type_P 1720000000
+          = .ok ⟨-14400, true, some (asc "EDT")⟩
+      ∧ (absBlock sampleV2.v2 (some sampleRule2)).find_local_time_type_from_local_P 2024 1710037800
+          = .ok .none := by
+  refine ⟨by decide +kernel, by decide +kernel, by decide +kernel⟩
+
 /-- non-vacuity (kernel evaluation): three concrete written files are read back exactly — v1 with
 leap seconds and indicators, v2 with a POSIX footer consistent with its last transition, v3 with an
 extension footer -/
@@ -251,13 +457,17 @@ theorem sampleV2_agrees : RuleAgrees (absBlock sampleV2.v2 (some sampleRule2)) :
   cases h2
   exact ⟨1700000000, ⟨-18000, false, some (asc "EST")⟩, by decide, by decide, by decide +kernel⟩
 
-/-- non-vacuity: the hypotheses of `tzif_roundtrip_v2` hold for `sampleV2` with the canonical footer -/
-example : parse (encodeTzif { sampleV2 with footer := renderTz sampleRule2 })
-    = .ok (absBlock sampleV2.v2 (some sampleRule2)) :=
-  tzif_roundtrip_v2 { sampleV2 with footer := renderTz sampleRule2 } (by decide) sampleV2_shape1
-    sampleV2_shape2 sampleV2_vals _ (Or.inr ⟨sampleRule2, rfl, rfl, by decide⟩)
+/-- non-vacuity: the hypotheses of `tzif_roundtrip_v2` hold for `sampleV2` as it is, footer
+`EST5EDT,M3.2.0,M11.1.0` (DST offset and times omitted) -/
+example : parse (encodeTzif sampleV2) = .ok (absBlock sampleV2.v2 (some sampleRule2)) :=
+  tzif_roundtrip_v2 sampleV2 (by decide) sampleV2_shape1 sampleV2_shape2 sampleV2_vals _
+    (Or.inr ⟨sampleRule2, rfl, tz_accepts_only _ _ _ (tz_spellings_samples (false, _, _) (by decide))⟩)
     (show (1000000000 : Int) < 1700000000 ∧ True from ⟨by decide, trivial⟩) (by decide) (by decide)
     sampleV2_agrees
+
+/-- the canonical footer is one admissible footer among many -/
+example : FooterOk .V2 (renderTz sampleRule2) (some sampleRule2) :=
+  Or.inr ⟨sampleRule2, rfl, canonical_denotes _ _ (by decide)⟩
 
 /-- non-vacuity of the "only if" direction: the same zone with the last transition switching to
 daylight time in mid-November is refused by `validate`, hence does not satisfy `RuleAgrees`; and the
@@ -281,6 +491,136 @@ example :
     cases h2
     exact ⟨1700000000, by decide, by decide +kernel⟩
 
+/-! ### inconsistent data is rejected (stated on the input) -/
+
+/-- COUNTS THAT DISAGREE WITH THE DATA: an accepted file has exactly the layout its header counts
+announce.  Version 1: the file is the 44-byte header plus the data block of the size the six counts
+give (`announcedLen 4`) and nothing else — any other length is rejected.  Versions 2 and 3: that,
+followed by the second header and ITS announced block with 8-byte times, followed by a footer that
+starts and ends with a newline.  (`hdrCount` reads the big-endian counts at byte offsets 20…43.) -/
+theorem accepted_layout (bytes : List Nat) (z : Zone) (h : parse bytes = .ok z) :
+    (versionOf ((bytes.drop 4).take 1) = some .V1 → bytes.length = announcedLen 4 bytes)
+      ∧ (versionOf ((bytes.drop 4).take 1) ≠ some .V1 →
+          bytes.length = announcedLen 4 bytes + announcedLen 8 (bytes.drop (announcedLen 4 bytes))
+              + (footerOf bytes).length
+            ∧ (footerOf bytes).head? = some 10 ∧ (footerOf bytes).getLast? = some 10) :=
+  accepted_layout' bytes z h
+
+/-- … hence: a version-1 file whose length differs from what its counts announce is rejected, and so
+is a version-2/3 file not longer than its two announced blocks (the footer has at least its first
+newline) -/
+theorem rejects_count_mismatch (bytes : List Nat) :
+    (versionOf ((bytes.drop 4).take 1) = some .V1 → bytes.length ≠ announcedLen 4 bytes →
+        parse bytes = .err)
+      ∧ (versionOf ((bytes.drop 4).take 1) ≠ some .V1 →
+          bytes.length ≤ announcedLen 4 bytes + announcedLen 8 (bytes.drop (announcedLen 4 bytes)) →
+        parse bytes = .err) := by
+  constructor
+  · intro hv hne
+    cases hp : parse bytes with
+    | ok z => exact absurd ((accepted_layout bytes z hp).1 hv) hne
+    | err => rfl
+    | panic => exact absurd hp (parse_total bytes)
+  · intro hv hlt
+    cases hp : parse bytes with
+    | ok z =>
+      exfalso
+      obtain ⟨h1, h2, -⟩ := (accepted_layout bytes z hp).2 hv
+      cases hf : footerOf bytes with
+      | nil => rw [hf] at h2; cases h2
+      | cons a t =>
+        rw [hf] at h1
+        simp only [List.length_cons] at h1
+        omega
+    | err => rfl
+    | panic => exact absurd hp (parse_total bytes)
+
+/-- MALFORMED FOOTER, on `parse` itself: a version-1 zone has no rule; for versions 2 and 3 the footer
+of an accepted file (`accepted_layout`: newline-framed) is valid UTF-8, its TZ string — the footer
+without surrounding ASCII white space — neither starts with `:` nor contains a NUL, and it is either
+empty with no rule in the zone, or a string of the TZ grammar DENOTING the zone's rule (the extension
+flag being that of the second header's version).  Any other footer is therefore rejected. -/
+theorem accepted_footer (bytes : List Nat) (z : Zone) (h : parse bytes = .ok z) :
+    (versionOf ((bytes.drop 4).take 1) = some .V1 → z.rule = none)
+      ∧ (versionOf ((bytes.drop 4).take 1) ≠ some .V1 →
+          validUtf8 (footerOf bytes) = true ∧ (trimWs (footerOf bytes)).head? ≠ some 58
+            ∧ 0 ∉ trimWs (footerOf bytes)
+            ∧ ((trimWs (footerOf bytes) = [] ∧ z.rule = none)
+                ∨ ∃ ext x, z.rule = some x ∧ Denotes ext (trimWs (footerOf bytes)) x)) :=
+  accepted_footer' bytes z h
+
+/-- THE READER'S VALUE ON EVERY WRITTEN FILE, versions 2 and 3.  For every file written by the
+specification's writer whose counts fit the header (`BlockShape`) and whose values merely fit their
+fields (`BlockFits`: times `i64`, offsets and corrections `i32` — NO condition on order, indices,
+designations or the rule), with any admissible footer: `parse` returns the written zone if the written
+data are `Consistent` (legal type records, admissible indicators, strictly increasing transitions,
+type indices in range, leap-table constraints, rule agreeing with the last transition) and `Err`
+otherwise. -/
+theorem parse_written (f : TzFile) (hver : f.version ≠ .V1) (hs1 : BlockShape f.v1)
+    (hs2 : BlockShape f.v2) (hfit : BlockFits f.version 8 f.v2) (rule : Option Rule)
+    (hfoot : FooterOk f.version f.footer rule) :
+    (Consistent f.v2 rule → parse (encodeTzif f) = .ok (absBlock f.v2 rule))
+      ∧ (¬ Consistent f.v2 rule → parse (encodeTzif f) = .err) :=
+  parse_written_v2' f hver hs1 hs2 hfit rule hfoot
+
+/-- the same for version 1 (32-bit times, no footer, no rule) -/
+theorem parse_written_v1 (f : TzFile) (hver : f.version = .V1) (hs : BlockShape f.v1)
+    (hfit : BlockFits .V1 4 f.v1) :
+    (Consistent f.v1 none → parse (encodeTzif f) = .ok (absBlock f.v1 none))
+      ∧ (¬ Consistent f.v1 none → parse (encodeTzif f) = .err) :=
+  parse_written_v1' f hver hs hfit
+
+/-- the classes the property names, each on its own: a written file (v2/v3; values fitting their
+fields, admissible footer) is REJECTED if its transitions are not strictly increasing, or a
+transition's type index is out of bounds, or a type's designation index is out of bounds, or an
+offset is `i32::MIN`, or the indicator arrays contain the forbidden couple, or the leap-second table
+violates its constraints, or the footer rule disagrees with the last transition -/
+theorem rejects_written_classes (f : TzFile) (hver : f.version ≠ .V1) (hs1 : BlockShape f.v1)
+    (hs2 : BlockShape f.v2) (hfit : BlockFits f.version 8 f.v2) (rule : Option Rule)
+    (hfoot : FooterOk f.version f.footer rule)
+    (h : ¬ SortedStrict (absBlock f.v2 rule).transitions
+      ∨ (∃ t ∈ f.v2.trans, f.v2.types.length ≤ t.2)
+      ∨ (∃ t ∈ f.v2.types, f.v2.names.length ≤ t.abbr)
+      ∨ (∃ t ∈ f.v2.types, t.off = I32_MIN)
+      ∨ badIndicators f.v2.types.length f.v2.stdWalls f.v2.utLocals = true
+      ∨ checkLeaps (absBlock f.v2 rule).leaps = false
+      ∨ ¬ RuleAgrees (absBlock f.v2 rule)) :
+    parse (encodeTzif f) = .err := by
+  refine (parse_written f hver hs1 hs2 hfit rule hfoot).2 ?_
+  rintro ⟨c1, c2, c3, c4, c5, c6⟩
+  rcases h with h | ⟨t, ht, hle⟩ | ⟨t, ht, hle⟩ | ⟨t, ht, hmin⟩ | h | h | h
+  · exact h c3
+  · have := c4 ⟨t.1, t.2⟩ (by
+      simp only [absBlock, List.mem_map]
+      exact ⟨t, ht, rfl⟩)
+    simp only [absBlock, List.length_map] at this
+    omega
+  · have := (c1 t ht).2.2.1
+    omega
+  · exact (c1 t ht).2.1 hmin
+  · rw [h] at c2; cases c2
+  · rw [h] at c5; cases c5
+  · exact h c6
+
+/-- non-vacuity: `sampleV2`'s values fit their fields and its data are consistent; swapping its two
+transition times gives an unsorted table, which `rejects_written_classes` rejects -/
+example :
+    BlockFits sampleV2.version 8 sampleV2.v2 ∧ Consistent sampleV2.v2 (some sampleRule2)
+      ∧ parse (encodeTzif { sampleV2 with v2 := { sampleV2.v2 with trans := [(1700000000, 1), (1000000000, 0)] } })
+          = .err := by
+  have hfit : BlockFits sampleV2.version 8 sampleV2.v2 :=
+    ⟨sampleV2_vals.trans, fun t ht => (sampleV2_vals.types t ht).1, sampleV2_vals.leaps⟩
+  refine ⟨hfit, ⟨sampleV2_vals.types, sampleV2_vals.ind,
+    show (1000000000 : Int) < 1700000000 ∧ True from ⟨by decide, trivial⟩, by decide, by decide,
+    sampleV2_agrees⟩, ?_⟩
+  refine rejects_written_classes _ (by decide) sampleV2_shape1
+    ⟨by decide, by decide, by decide, by decide, by decide, by decide, by decide, by decide⟩
+    ⟨by decide +kernel, by decide +kernel, by decide +kernel⟩ (some sampleRule2)
+    (Or.inr ⟨sampleRule2, rfl, tz_accepts_only _ _ _ (tz_spellings_samples (false, _, _) (by decide))⟩)
+    (Or.inl ?_)
+  show ¬ ((1700000000 : Int) < 1000000000 ∧ True)
+  intro h; exact absurd h.1 (by decide)
+
 /-- non-vacuity: every cut point of the three sample files (kernel evaluation) -/
 example :
     (∀ k, k < (encodeTzif sampleV1).length → parse ((encodeTzif sampleV1).take k) = .err)
@@ -299,6 +639,12 @@ theorem tz_rejects_samples : ∀ t ∈ badRuleTexts, from_tz_string t.1 t.2 = .e
 
 /-- malformed footers / header extremes on a concrete file are refused -/
 theorem rejects_samples : ∀ b ∈ badFiles, parse b = .err := by decide +kernel
+
+/-- non-vacuity: `sampleV2` requests room for 2 transitions, 2 types and no leap second (64 bytes)
+from a file of 157 bytes; the constant 16/5 cannot be lowered to 1 — a version-1 file of ten
+transitions has 100 + 44 + 6 + 1 bytes and asks for 160 + 16 -/
+example : capacities (encodeTzif sampleV2) = [2, 2, 0] ∧ (capacityBytes (encodeTzif sampleV2)).sum = 64
+    ∧ (encodeTzif sampleV2).length = 157 := by decide +kernel
 
 /-- non-vacuity: the readers do accept something non-trivial, and do refuse something -/
 example : (∃ z, parse (encodeTzif sampleV2) = .ok z ∧ z.transitions.length = 2 ∧ z.types.length = 2)
